@@ -48,12 +48,16 @@ theorem C06_no_panic_partial (valid : List Nat → Verdict) (s : Src) :
       ∃ hdr s1, readExact hdrSize s [] = (.ok hdr, s1) ∧ declaredLen hdr < sliceStart :=
   readFrame_asWritten_panic_iff valid s
 
-/-- Session level: with the guard, no script makes the read loop record a panic or unwind. -/
+/-- Session level: with the guard, no script makes the read loop record a panic or unwind —
+    given a parser and a message handler (state machine, filter, gate) that do not panic
+    themselves; both assumptions are explicit hypotheses, and the engine's panic oracle watches
+    the real ones. -/
 theorem C06_session_no_panic {σ Out : Type} (v : Variant) (hv : sliceStart ≤ v.minLen)
-    (h : Handler σ Out) (valid : Nat → List Nat → Verdict) (hp : ∀ i bs, valid i bs ≠ .crash)
+    (h : Handler σ Out) (hh : ∀ st i bs, (h.step st i bs).2.2 ≠ .crash)
+    (valid : Nat → List Nat → Verdict) (hp : ∀ i bs, valid i bs ≠ .crash)
     (s : Src) (st : σ) :
     (runLoop v h valid s st).evs.any Ev.isPanic = false ∧ (runLoop v h valid s st).fin ≠ .panicked :=
-  loop_no_panic v hv h valid hp _ s st 0
+  loop_no_panic v hv h hh valid hp _ s st 0
 
 /-- …and as written a session does unwind on the witness (nothing after the loop runs: C07). -/
 theorem C06_session_panic_counterexample :
@@ -151,6 +155,10 @@ example : (readFrame repaired (fun _ => .reject) [.byte 3, .byte 0, .byte 0, .by
     (repaired) framing panic too — which is what the real routecore does in an overflow-checked
     build for one malformed Peer Up (see notes/C06.md). -/
 example : (readFrame repaired (fun _ => .crash) [.byte 3, .byte 0, .byte 0, .byte 0, .byte 6, .byte 3]).1 = .panic .parser := by decide
+/-- …and so is the handler hypothesis: a handler that panics on its second message unwinds the
+    session there (what the real state machine does for one malformed Peer Up, see notes). -/
+example : (runLoop repaired (crashingHandler (some 1)) (fun _ _ => .accept)
+    [.byte 3, .byte 0, .byte 0, .byte 0, .byte 6, .byte 4, .byte 3, .byte 0, .byte 0, .byte 0, .byte 6, .byte 3] 0).fin = .panicked := by decide
 /-- `C06_framing_in_sync`'s hypotheses are satisfiable. -/
 example : [3, 0, 0, 0, 7].length = hdrSize ∧ declaredLen [3, 0, 0, 0, 7] = sliceStart + [4, 9].length ∧
     repaired.minLen ≤ declaredLen [3, 0, 0, 0, 7] := by decide
